@@ -450,7 +450,11 @@ pub struct CompositionGraph {
     /// The map of export names to node ids.
     exports: IndexMap<String, NodeIndex>,
     /// The map of defined types to node ids.
-    defined: HashMap<Type, NodeIndex>,
+    ///
+    /// The map is insertion-ordered so that the dependency edges added by
+    /// `define_type` (and with them the encoded output) do not depend on
+    /// hash iteration order.
+    defined: IndexMap<Type, NodeIndex>,
     /// The map of package keys to package ids.
     package_map: HashMap<PackageKey, PackageId>,
     /// The registered packages.
@@ -1082,7 +1086,7 @@ impl CompositionGraph {
                 "removing type definition `{name}`",
                 name = node.export.as_ref().unwrap()
             );
-            let removed = self.defined.remove(&node.item_kind.ty());
+            let removed = self.defined.shift_remove(&node.item_kind.ty());
             assert!(removed.is_some());
         }
     }
